@@ -14,7 +14,7 @@ import (
 // Bounded-exhaustive configurations with the textbook resolution as reference.
 
 type c09Cfg struct {
-	L       int   // chain length (t0 root .. t{L-1} executed)
+	L       int // chain length (t0 root .. t{L-1} executed)
 	names   []string
 	opt     [][]int // opt[level][nameIdx]: 0 absent, 1 defines, 2 defines + parent(); level 0 always defines
 	layout  int     // root: 0 flat, 1 second block nested inside the first, 2 first block inside a 2-iteration loop
